@@ -476,6 +476,7 @@ func checkC02(w *World, c *Check, tier string) {
 	c.floor("C02.raw", 40)
 	c.floor("C02.name", 100)
 	c.floor("C02.dup", 14)
+	checkDynamicNames(w, c, "C02.dup")
 	c.floor("C02.kind", 100)
 	c.floor("C02.brace", 14)
 	t, err := buildTables(w)
